@@ -53,6 +53,26 @@ Definition reply_stream_delivered : Prop :=
     concat chunks = wire (pre ++ [last]) ++ rest ->
     read_until_final final (S (length pre)) ipc_init (feed chunks) = Some (pre ++ [last]).
 
+(* the client side of the protocol (mypy/dmypy/client.py request()): whatever way the reply stream is split
+   into recv results, the client obtains the same frames, namely exactly those the server wrote up to the final
+   one (so the response dict and the echoed stdout/stderr do not depend on fragmentation) *)
+Definition client_reassembles_any_fragmentation : Prop :=
+  forall (final : bytes -> bool) pre last chunks1 chunks2 rest,
+    Forall (fun m => m <> [] /\ py_len m < two32 /\ final m = false) pre ->
+    last <> [] -> py_len last < two32 -> final last = true ->
+    concat chunks1 = wire (pre ++ [last]) ++ rest -> concat chunks2 = concat chunks1 ->
+    client_request final (feed chunks1) = client_request final (feed chunks2) /\
+    client_request final (feed chunks1) = Some (pre ++ [last]).
+
+(* EOF inside a frame, after any number of complete non-final frames: an error (request() returns
+   {"error": ...}), never a response assembled from a partial frame *)
+Definition client_rejects_truncated : Prop :=
+  forall (final : bytes -> bool) pre mlast p chunks,
+    Forall (fun m => m <> [] /\ py_len m < two32 /\ final m = false) pre ->
+    py_len mlast < two32 -> (exists x, x <> [] /\ p ++ x = encode_frame mlast) ->
+    concat chunks = wire pre ++ p ->
+    client_request final (feed chunks) = None.
+
 (* ------------------------------------------------------------------------------------------ (b) *)
 From C16 Require Import Serve.
 
